@@ -53,6 +53,9 @@ def run(ctx):
         ang = [angle(rng) for _ in range(3)]
         if rng.random() < 0.1:
             ang = [0.0, 0.0, 0.0]
+        elif rng.random() < 0.15:        # non-zero triples with special structure: zero sum, one zero, equal angles
+            a_, b_ = angle(rng) or 30.0, angle(rng) or -45.0
+            ang = rng.choice([[a_, -a_, 0.0], [0.0, a_, -a_], [a_, b_, -(a_ + b_)], [a_, a_, a_], [a_, 0.0, 0.0], [0.0, 0.0, a_]])
         mode = rng.randrange(5)
         origin, offset = (vec(rng), vec(rng)) if rng.random() < 0.8 else ([0.0] * 3, [0.0] * 3)
         pts = [vec(rng, 5.0) for _ in range(rng.choice([1, 2, 4]))]
